@@ -865,6 +865,7 @@ func resolverE2E(r *rng, n int, certDir string) error {
 	}
 	serial := 0
 	hot := ""
+	lastECS := -1 // profile stated by the ECS option of the query mkq built last (-1: none)
 	mkq := func(id int) []byte {
 		name := bases[r.intn(len(bases))]
 		if hot != "" && r.coin(50) {
@@ -874,7 +875,23 @@ func resolverE2E(r *rng, n int, certDir string) error {
 			name = randCase(r, name)
 		}
 		typ := []int{1, 1, 16}[r.intn(3)]
-		return msgSpec{id: id, flags: 0x0100, qs: [][]byte{question(encodeName(name), typ, 1)}}.encode()
+		ms := msgSpec{id: id, flags: 0x0100, qs: [][]byte{question(encodeName(name), typ, 1)}}
+		lastECS = -1
+		if r.coin(30) {
+			// the query comes through a local forwarder that states the real client in a full-length ECS option
+			// (dnsmasq add-subnet=32,128): that address, not the socket's, selects the profile
+			lastECS = r.intn(e2eProfiles)
+			d := []byte{0, 1, 32, 0, 127, 0, 0, byte(10 + lastECS)}
+			if r.coin(30) {
+				d = append([]byte{0, 2, 128, 0, 0, 0, 0, 0, 0, 0, 0, 0, 0, 0, 0xff, 0xff, 127, 0, 0}, byte(10+lastECS))
+			}
+			opts := []opt{{8, d}}
+			if r.coin(40) {
+				opts = append([]opt{{10, r.bytes(8)}}, opts...)
+			}
+			ms.ar = []rr{optRR(1232, 0, opts)}
+		}
+		return ms.encode()
 	}
 	emitQ := func(proto string, prof int, q []byte, nrep int, rep []byte) {
 		serial++
@@ -885,9 +902,14 @@ func resolverE2E(r *rng, n int, certDir string) error {
 			body = body[2:]
 		}
 		saw := "-"
+		qend := 12
+		for qend < len(q) && q[qend] != 0 {
+			qend += 1 + int(q[qend])
+		}
+		qend += 5
 		for k := 0; k < e2eProfiles; k++ {
 			a := autoAnswerP(q, fmt.Sprintf("/e%d", k))
-			if len(body) == len(a) && len(a) > 12 && bytes.Equal(body[len(q)+10:], a[len(q)+10:]) {
+			if len(body) == len(a) && len(a) > qend+10 && bytes.Equal(body[qend+10:], a[qend+10:]) {
 				saw = itoa(k)
 			}
 		}
@@ -897,15 +919,19 @@ func resolverE2E(r *rng, n int, certDir string) error {
 		hot = fmt.Sprintf("h%d.example.com", round)
 		nudp, ntcp := r.rng(4, 8), r.rng(1, 2)
 		uq := make([][]byte, nudp)
+		uecs := make([]int, nudp)
 		for i := range uq {
 			uq[i] = mkq(r.intn(65536))
+			uecs[i] = lastECS
 		}
 		tq := make([][][]byte, ntcp)
+		tecs := make([][]int, ntcp)
 		for i := range tq {
 			k := r.rng(2, 4)
 			ids := r.intn(60000)
 			for j := 0; j < k; j++ {
 				tq[i] = append(tq[i], mkq(ids+j))
+				tecs[i] = append(tecs[i], lastECS)
 			}
 		}
 		uprof := make([]int, nudp)
@@ -943,7 +969,11 @@ func resolverE2E(r *rng, n int, certDir string) error {
 			if len(ures[i]) > 0 {
 				rep = ures[i][0]
 			}
-			emitQ("udp", uprof[i], q, len(ures[i]), rep)
+			pf := uprof[i]
+			if uecs[i] >= 0 {
+				pf = uecs[i]
+			}
+			emitQ("udp", pf, q, len(ures[i]), rep)
 			done++
 		}
 		for i, qs := range tq {
@@ -963,13 +993,17 @@ func resolverE2E(r *rng, n int, certDir string) error {
 				}
 				st = st[2+l:]
 			}
-			for _, q := range qs {
+			for j, q := range qs {
 				id := int(q[0])<<8 | int(q[1])
 				var rep []byte
 				if len(frames[id]) > 0 {
 					rep = frames[id][0]
 				}
-				emitQ("tcp", tprof[i], q, len(frames[id]), rep)
+				pf := tprof[i]
+				if tecs[i][j] >= 0 {
+					pf = tecs[i][j]
+				}
+				emitQ("tcp", pf, q, len(frames[id]), rep)
 				done++
 			}
 		}
